@@ -136,14 +136,14 @@ func looksLikeFrame(wire []byte) int {
 }
 
 type cell struct {
-	TLS        bool   `json:"tls"`
-	NoFirst    bool   `json:"disableCustomTLSFirstByte"`
-	Force      bool   `json:"force"`
-	Enc        bool   `json:"enc"`
-	Comp       bool   `json:"comp"`
-	Proto      string `json:"proto"`
-	Mux        bool   `json:"mux"`
-	NoToken    bool   `json:"emptyToken,omitempty"`
+	TLS     bool   `json:"tls"`
+	NoFirst bool   `json:"disableCustomTLSFirstByte"`
+	Force   bool   `json:"force"`
+	Enc     bool   `json:"enc"`
+	Comp    bool   `json:"comp"`
+	Proto   string `json:"proto"`
+	Mux     bool   `json:"mux"`
+	NoToken bool   `json:"emptyToken,omitempty"`
 }
 
 func runCell(c cell) (viol []string, inconclusive string) {
@@ -355,7 +355,13 @@ func runFirstBytes(mode string) (viol []string, n int, inconclusive string) {
 			if err != nil {
 				return false
 			}
-			defer cl.Close()
+			defer func() {
+				cl.Close()
+				// let the server forget this client's session before the next attempt is judged
+				for i := 0; i < 150 && peek.F(srv.Svc, "ctlManager.ctlsByRunID").Len() > 0; i++ {
+					time.Sleep(20 * time.Millisecond)
+				}
+			}()
 			for i := 0; i < 100; i++ {
 				if peek.F(srv.Svc, "ctlManager.ctlsByRunID").Len() > 0 {
 					return true
